@@ -545,7 +545,7 @@ def dispatcher_names(repo, rep):
 
 
 def run(repo, rep, tier):
-    rep.rule("R-C12-5", "every parameter of the functions behind this property is read (model-native converters): none is accepted and then ignored")
+    rep.rule("R-C12-5", "every parameter of the functions behind this property is read (model-native converters): none is accepted and then ignored, and no control parameter (cutoff, limit, tolerance, window, count, switch) is replaced by another value before use (coercion and default filling aside)")
     from .shared import unused_parameters
     unused_parameters(repo, rep, "R-C12-5", ("wavespectra.input.ww3", "wavespectra.input.ncswan", "wavespectra.input.wwm", "wavespectra.input.era5", "wavespectra.input.ndbc", "wavespectra.input.dataset"), "model-native converters")
     rep.rule("R-C12-1", "starting from each format's native convention, the converted density types as m2 s deg-1 (linear in the native "
